@@ -146,7 +146,10 @@ fn push_index_records_for_multi_reference_slice(
 
         range.start = cmp::min(range.start, record.alignment_start);
 
-        let alignment_end = record.alignment_end();
+        // A placed record without bases (e.g., an unmapped mate with a missing sequence) has an
+        // alignment span of 0, i.e., its end is before its start (or missing at position 1). It
+        // still occupies its start position, as the writer declares in the slice header.
+        let alignment_end = cmp::max(record.alignment_end(), record.alignment_start);
         range.end = cmp::max(range.end, alignment_end);
     }
 
@@ -158,11 +161,17 @@ fn push_index_records_for_multi_reference_slice(
         let (alignment_start, alignment_span) = if reference_sequence_id.is_some() {
             let range = &reference_sequence_ids[&reference_sequence_id];
 
-            if let (Some(start), Some(end)) = (range.start, range.end) {
-                let span = usize::from(end) - usize::from(start) + 1;
-                (Some(start), span)
-            } else {
-                todo!("unhandled interval: {:?}", range);
+            match (range.start, range.end) {
+                (Some(start), Some(end)) if start <= end => {
+                    let span = usize::from(end) - usize::from(start) + 1;
+                    (Some(start), span)
+                }
+                _ => {
+                    return Err(io::Error::new(
+                        io::ErrorKind::InvalidData,
+                        "invalid slice reference sequence alignment range",
+                    ));
+                }
             }
         } else {
             (None, 0)
